@@ -14,9 +14,11 @@ import (
 	"fmt"
 	"math/rand"
 	"sort"
+	"strings"
 	"sync"
 	"sync/atomic"
 	"time"
+	rc "verif/refcodec"
 
 	"github.com/TarsCloud/TarsGo/tars/util/rogger"
 
@@ -44,6 +46,7 @@ type script struct {
 	Push      bool   // id-0 pushes
 	DropEvery int    // drop every n-th response
 	LateEvery int    // answer every n-th request only after the caller's timeout
+	CutEvery  int    // every n-th response: write only its first 5..12 bytes, then close the connection
 }
 
 var scripts = []script{
@@ -55,6 +58,7 @@ var scripts = []script{
 	{Name: "forged-ids+pushes", Window: 8, Order: "random", Forge: true, Push: true},
 	{Name: "late-and-dropped", Window: 4, Order: "random", DropEvery: 13, LateEvery: 7},
 	{Name: "everything", Window: 8, Order: "random", Dup: 1, Forge: true, Push: true, DropEvery: 17, LateEvery: 11},
+	{Name: "response-cut-then-close", Window: 2, Order: "fifo", CutEvery: 11},
 }
 
 type pending struct {
@@ -120,6 +124,7 @@ func (r *responder) flush(c *netlab.SConn) {
 	type out struct {
 		frame []byte
 		late  bool
+		cut   bool
 	}
 	var outs []out
 	for _, ev := range batch {
@@ -128,10 +133,35 @@ func (r *responder) flush(c *netlab.SConn) {
 			continue
 		}
 		resp := netlab.Echo(ev)
+		if r.sc.CutEvery > 0 && r.n%r.sc.CutEvery == 0 {
+			// the peer dies in the middle of a response: the bytes already delivered belong to the
+			// old connection and must not be joined with what arrives on the next one.  Half of the
+			// cuts fall right behind the request-id field of a response that is longer than an
+			// ordinary echo by exactly the bytes delivered: if those bytes were carried over, the
+			// first echo on the next connection would complete it into a well-formed response
+			// addressed to this call.
+			k := 5 + r.rng.Intn(8)
+			if r.n%2 == 0 {
+				if nodes, err := rc.ParseFields(resp[4:]); err == nil {
+					for _, nd := range nodes {
+						if nd.Tag == 3 {
+							k = 4 + nd.End
+						}
+					}
+					pad := append(append([]byte(nil), ev.Req.Buffer...), []byte(strings.Repeat("#", k))...)
+					resp = (&netlab.Response{Version: ev.Req.Version, PacketType: ev.Req.PacketType, RequestID: ev.Req.RequestID, Buffer: pad}).Encode()
+				}
+			}
+			if k > len(resp)-1 {
+				k = len(resp) - 1
+			}
+			outs = append(outs, out{resp[:k], false, true})
+			break
+		}
 		late := r.sc.LateEvery > 0 && r.n%r.sc.LateEvery == 0
-		outs = append(outs, out{resp, late})
+		outs = append(outs, out{resp, late, false})
 		for d := 0; d < r.sc.Dup; d++ {
-			outs = append(outs, out{resp, false})
+			outs = append(outs, out{resp, false, false})
 		}
 		if r.sc.Forge {
 			// a response for an id nobody waits for: carries a token no caller sent
@@ -149,11 +179,11 @@ func (r *responder) flush(c *netlab.SConn) {
 				fid = r.maxSeen + 100000 + int32(r.rng.Intn(50))
 			}
 			if fid != 0 {
-				outs = append(outs, out{(&netlab.Response{Version: 1, RequestID: fid, Buffer: []byte(fmt.Sprintf("FORGED-for-%d", fid))}).Encode(), false})
+				outs = append(outs, out{(&netlab.Response{Version: 1, RequestID: fid, Buffer: []byte(fmt.Sprintf("FORGED-for-%d", fid))}).Encode(), false, false})
 			}
 		}
 		if r.sc.Push && r.rng.Intn(4) == 0 {
-			outs = append(outs, out{(&netlab.Response{Version: 1, RequestID: 0, Buffer: []byte("PUSHED")}).Encode(), false})
+			outs = append(outs, out{(&netlab.Response{Version: 1, RequestID: 0, Buffer: []byte("PUSHED")}).Encode(), false, false})
 		}
 	}
 	r.mu.Unlock()
@@ -170,6 +200,11 @@ func (r *responder) flush(c *netlab.SConn) {
 			continue
 		}
 		_ = c.Send(o.frame)
+		if o.cut {
+			time.Sleep(time.Millisecond)
+			c.Close()
+			return
+		}
 	}
 }
 
@@ -225,7 +260,7 @@ func runBatch(sc script, callers, perCaller, endpoints int, timeoutMs int, seed 
 		go func(g int) {
 			defer wg.Done()
 			for i := 0; i < perCaller; i++ {
-				tok := fmt.Sprintf("tok-%d-g%d-%d", seed, g, i)
+				tok := fmt.Sprintf("tok-%d-g%03d-%04d", seed, g, i) // fixed width: every echo frame of a batch has the same length
 				rc := &callRec{token: tok, start: netlab.Tick()}
 				b, _, err := cls[g%len(cls)].Call(context.Background(), "echo", []byte(tok), false)
 				rc.end = netlab.Tick()
@@ -255,7 +290,7 @@ func runBatch(sc script, callers, perCaller, endpoints int, timeoutMs int, seed 
 		}
 		return m
 	}
-	nOK, nTimeout := 0, 0
+	nOK, nTimeout, nOther := 0, 0, 0
 	for _, rc := range all {
 		switch rc.errClass {
 		case "ok":
@@ -268,6 +303,11 @@ func runBatch(sc script, callers, perCaller, endpoints int, timeoutMs int, seed 
 		case "timeout":
 			nTimeout++
 		default:
+			if sc.CutEvery > 0 {
+				// the connection was closed under the call: any failure is acceptable, a foreign reply is not
+				nOther++
+				continue
+			}
 			run.Violation("unexpected-call-error", sc.Name, fmt.Sprintf("call %q failed with %s (the peer answers or stays silent; only a timeout is an acceptable failure)", rc.token, rc.errClass), wit(nil))
 			stopAll(srvs)
 			return
@@ -315,8 +355,143 @@ func runBatch(sc script, callers, perCaller, endpoints int, timeoutMs int, seed 
 	run.Eval(int64(len(all)))
 	run.Add("calls_ok", int64(nOK))
 	run.Add("calls_timed_out", int64(nTimeout))
+	run.Add("calls_failed_on_closed_connection", int64(nOther))
 	run.Add("requests_seen_by_server", int64(seenReq))
 	run.Distinct(fmt.Sprintf("%s|g%d|e%d|ok%d|to%d|wrap%d|%v", sc.Name, callers, endpoints, nOK/50, nTimeout/10, wrapStart, twoComms))
+}
+
+// cutScenario: the peer dies right behind the request-id field of its response to call A (a
+// response that would have been longer than an ordinary echo by exactly the bytes delivered);
+// 30 ms later, while A is still waiting, call B goes out over a new connection and is answered
+// normally.  A must end in an error and B must get its own token: bytes of the dead connection
+// joined with B's response would form a well-formed response addressed to A.
+func cutScenario() {
+	rounds := run.Pick(8, 60)
+	for r := 0; r < rounds; r++ {
+		var srv *netlab.ScriptServer
+		srv = netlab.NewScriptServer(func(ev *netlab.ReqEvent) {
+			if ev.Err != nil {
+				return
+			}
+			resp := netlab.Echo(ev)
+			if !strings.HasPrefix(string(ev.Req.Buffer), "A-") {
+				_ = ev.Conn.Send(resp)
+				return
+			}
+			k := 9
+			if nodes, err := rc.ParseFields(resp[4:]); err == nil {
+				for _, nd := range nodes {
+					if nd.Tag == 3 {
+						k = 4 + nd.End
+					}
+				}
+			}
+			pad := append(append([]byte(nil), ev.Req.Buffer...), []byte(strings.Repeat("#", k))...)
+			long := (&netlab.Response{Version: ev.Req.Version, PacketType: ev.Req.PacketType, RequestID: ev.Req.RequestID, Buffer: pad}).Encode()
+			_ = ev.Conn.Send(long[:k])
+			ev.Conn.Close()
+		})
+		cl := rpcw.NewDirect([]string{srv.Addr}, rpcw.Opt{InvokeTimeoutMs: 1500})
+		// warm-up so that the connection exists
+		tokW := fmt.Sprintf("W-cut%02d-%06d", r, run.Seed)
+		if b, _, err := cl.Call(context.Background(), "echo", []byte(tokW), false); err != nil || string(b) != tokW {
+			run.Inconclusive(fmt.Sprintf("cut scenario %d: warm-up call failed: %v", r, err))
+			srv.Stop()
+			continue
+		}
+		tokA := fmt.Sprintf("A-cut%02d-%06d", r, run.Seed)
+		tokB := fmt.Sprintf("B-cut%02d-%06d", r, run.Seed)
+		type res struct {
+			got string
+			err error
+		}
+		ca, cb := make(chan res, 1), make(chan res, 1)
+		go func() {
+			b, _, err := cl.Call(context.Background(), "echo", []byte(tokA), false)
+			ca <- res{string(b), err}
+		}()
+		time.Sleep(time.Duration(30+10*(r%4)) * time.Millisecond)
+		go func() {
+			b, _, err := cl.Call(context.Background(), "echo", []byte(tokB), false)
+			cb <- res{string(b), err}
+		}()
+		ra, rb := <-ca, <-cb
+		wit := map[string]interface{}{"round": r, "A": tokA, "B": tokB, "A_result": ra.got, "A_error": fmt.Sprint(ra.err), "B_result": rb.got, "B_error": fmt.Sprint(rb.err)}
+		if ra.err == nil && ra.got != tokA {
+			run.Violation("foreign-response-delivered", "response-cut-then-close", fmt.Sprintf("caller sent %q, its connection died inside the response, and it received %q (the reply to a call made on the next connection)", tokA, ra.got), wit)
+		} else if rb.err == nil && rb.got != tokB {
+			run.Violation("foreign-response-delivered", "response-cut-then-close", fmt.Sprintf("caller sent %q on the new connection and received %q", tokB, rb.got), wit)
+		} else if ra.err == nil {
+			run.Violation("foreign-response-delivered", "response-cut-then-close", fmt.Sprintf("call %q succeeded although its response was never completed", tokA), wit)
+		}
+		run.Add("cut_scenarios_B_answered", map[bool]int64{true: 1, false: 0}[rb.err == nil && rb.got == tokB])
+		run.Eval(2)
+		run.Distinct(fmt.Sprintf("cut|A:%s|B:%s", rpcw.ErrClass(ra.err), rpcw.ErrClass(rb.err)))
+		srv.Stop()
+	}
+}
+
+// idDrawStress draws request ids directly (hook VerifGenRequestID = the real genRequestID) from
+// several goroutines released together while the counter crosses MaxInt32: callers that draw at
+// the same time are concurrently outstanding, so within one round every id must be non-zero and
+// distinct.  The end-to-end wrap batches above cross the boundary once per batch; this phase
+// crosses it thousands of times with the draws packed into the same few hundred nanoseconds.
+func idDrawStress() {
+	cl := rpcw.NewDirect([]string{"127.0.0.1:1"}, rpcw.Opt{InvokeTimeoutMs: 100})
+	rounds := run.Pick(150000, 2000000)
+	const G, D = 8, 6
+	var bad atomic.Int64
+	ids := make([][]int32, G)
+	for g := range ids {
+		ids[g] = make([]int32, D)
+	}
+	distinctShapes := map[string]bool{}
+	for r := 0; r < rounds && bad.Load() == 0; r++ {
+		k := int32(r % 5)
+		setMsgID(2147483647 - k)
+		var start, done sync.WaitGroup
+		start.Add(1)
+		for g := 0; g < G; g++ {
+			done.Add(1)
+			go func(g int) {
+				defer done.Done()
+				start.Wait()
+				for d := 0; d < D; d++ {
+					ids[g][d] = drawID(cl.SP)
+				}
+			}(g)
+		}
+		start.Done()
+		done.Wait()
+		seen := map[int32][2]int{}
+		neg := 0
+		for g := 0; g < G; g++ {
+			for d := 0; d < D; d++ {
+				id := ids[g][d]
+				if id < 0 {
+					neg++
+				}
+				if id == 0 {
+					bad.Add(1)
+					run.Violation("id-zero-on-the-wire", "id-draw", fmt.Sprintf("round %d (counter preset to MaxInt32-%d): goroutine %d drew request id 0", r, k, g), map[string]interface{}{"round": r, "preset": 2147483647 - k, "ids": ids})
+					break
+				}
+				if o, dup := seen[id]; dup {
+					bad.Add(1)
+					run.Violation("duplicate-id-while-outstanding", "id-draw", fmt.Sprintf("round %d (counter preset to MaxInt32-%d): request id %d was handed to goroutine %d and to goroutine %d drawing at the same time", r, k, id, o[0], g), map[string]interface{}{"round": r, "preset": 2147483647 - k, "ids": ids})
+					break
+				}
+				seen[id] = [2]int{g, d}
+			}
+		}
+		distinctShapes[fmt.Sprintf("k%d-neg%d", k, neg)] = true
+		run.Eval(1)
+	}
+	for s := range distinctShapes {
+		run.Distinct("id-draw|" + s)
+	}
+	run.Set("id_draw_rounds", rounds)
+	run.Set("id_draw_round_shape", fmt.Sprintf("%d goroutines x %d draws released together, counter preset to MaxInt32-k, k=0..4", G, D))
 }
 
 func stopAll(srvs []*netlab.ScriptServer) {
@@ -328,7 +503,7 @@ func stopAll(srvs []*netlab.ScriptServer) {
 func main() {
 	run = vlib.Start("C08")
 	rogger.SetLevel(rogger.OFF)
-	run.SetRule("batches = response script {in order, reversed window, random window, duplicated x2/x5, forged ids (random / recently completed / not yet issued) + id-0 pushes, late (1.5x timeout) and dropped, everything} x callers {2,16,128} sharing one proxy x endpoints {1,3}; plus request-id wrap batches (counter preset to MaxInt32-k, k in 0..64). Every call carries a unique token echoed by the server under the request's id. A case is one call; distinct = distinct (script, callers, endpoints, outcome mix) batches.")
+	run.SetRule("batches = response script {in order, reversed window, random window, duplicated x2/x5, forged ids (random / recently completed / not yet issued) + id-0 pushes, late (1.5x timeout) and dropped, everything, response cut after 5..12 bytes then connection closed} x callers {2,16,128} sharing one proxy x endpoints {1,3}; plus request-id wrap batches (counter preset to MaxInt32-k, k in 0..64). Every call carries a unique token echoed by the server under the request's id. A case is one call; distinct = distinct (script, callers, endpoints, outcome mix) batches.")
 	run.Assume("a dropped or late response may only surface as a timeout error at the caller")
 	perCaller := run.Pick(40, 600)
 	seed := run.Seed * 1000
@@ -344,8 +519,15 @@ func main() {
 					pc = perCaller / 4
 				}
 				to := 400
-				if sc.LateEvery == 0 && sc.DropEvery == 0 {
+				if sc.LateEvery == 0 && sc.DropEvery == 0 && sc.CutEvery == 0 {
 					to = 3000
+				}
+				if sc.CutEvery > 0 {
+					// every cut costs the outstanding calls one timeout: fewer, smaller batches
+					if g == 128 || e == 3 {
+						continue
+					}
+					pc = run.Pick(20, 100)
 				}
 				runBatch(sc, g, pc, e, to, seed, 0)
 				if run.NumViolations() > 3 {
@@ -378,6 +560,10 @@ func main() {
 	for _, k := range ks {
 		seed++
 		runBatch(scripts[2], 32, 8, 1, 3000, seed, 2147483647-k)
+	}
+	cutScenario()
+	if haveMsgIDHook {
+		idDrawStress()
 	}
 	run.Sample(map[string]interface{}{"script": scripts[5], "events": "caller g3 sends token tok-…-g3-7 under id 4711; server answers ids in random order within a window of 8, interleaved with FORGED-for-<id> and id-0 PUSHED packets; caller must return tok-…-g3-7 or a timeout"})
 	run.Sample(map[string]interface{}{"wrap": "msgID preset to 2147483647-5, 32 callers x 8 calls: ids on the wire must skip 0 and stay distinct while outstanding"})
